@@ -201,18 +201,24 @@ structure Act where
 /-- The specification state matches the fixed context: the program's module, no
 globals, and the call depth bounds the memory pointer. -/
 structure SpecOK (G : GCtx) (mp : Int) (st : St) : Prop where
-  heap : True
+  /-- in the contexts of the extended fragment (`for` loops, `len`/`push`): the heap invariant -/
+  heap : G.fr = true → HeapInv st.heap
   module : st.module = G.mod
   globals : st.globals = []
   depth : mp ≤ G.B + (st.depth : Int) * (G.F : Int)
 
-theorem SpecOK.world {G mp st} (h : SpecOK G mp st) (st' : St) (e : st' = { st with out := st'.out, heap := st'.heap }) :
-    SpecOK G mp st' := by
-  rw [e]; exact ⟨h.heap, h.module, h.globals, h.depth⟩
+theorem HeapInv.empty : HeapInv #[] := fun a fs h => by simp at h
+
+theorem SpecOK.world {G mp st} (h : SpecOK G mp st) (st' : St) (e : st' = { st with out := st'.out, heap := st'.heap })
+    (hi : HeapInv st.heap → HeapInv st'.heap) : SpecOK G mp st' := by
+  have hh : G.fr = true → HeapInv st'.heap := fun hfr => hi (h.heap hfr)
+  rw [e]; exact ⟨hh, h.module, h.globals, h.depth⟩
 
 theorem SpecOK.scopes_out {G mp st} (h : SpecOK G mp st) (st' : St)
-    (e : st' = { st with scopes := st'.scopes, out := st'.out, heap := st'.heap }) : SpecOK G mp st' := by
-  rw [e]; exact ⟨h.heap, h.module, h.globals, h.depth⟩
+    (e : st' = { st with scopes := st'.scopes, out := st'.out, heap := st'.heap })
+    (hi : HeapInv st.heap → HeapInv st'.heap) : SpecOK G mp st' := by
+  have hh : G.fr = true → HeapInv st'.heap := fun hfr => hi (h.heap hfr)
+  rw [e]; exact ⟨hh, h.module, h.globals, h.depth⟩
 
 /-- The function table is sound: a name it resolves is a callable function of the module, found
 by the specification under the same name, and compiled under its mangled name. -/
@@ -255,13 +261,21 @@ structure GRel (G : GCtx) (A : Act) (scopes : CScopes) (vm : List (String × Nat
 /-- Inside the activation `⟨fn, ·⟩ :: rest`: the VM gets — handling on the way the exceptions
 that are caught deeper — to a `throw` instruction; its interrupt finds the VM `frames'`
 activations deeper, with `xs` more operands, memory `mem'` and world `out'`. -/
-def RunsT (G : GCtx) (fn : String) (rest : List Frame) (mp : Int) (ip : Nat) (stk : List SVal)
+structure RunsT (G : GCtx) (fn : String) (rest : List Frame) (mp : Int) (ip : Nat) (stk : List SVal)
     (mem : Mem) (out : World) (msg : String) (sp : Span) (mem' : Mem) (out' : World) :
-    Prop :=
-  ∀ k, ∃ k' s1 frames' ip' mp' xs,
+    Prop where
+  run : ∀ k, ∃ k' s1 frames' ip' mp' xs,
     execHN G.code G.lim k' (mkSI G.s (⟨fn, ip⟩ :: rest) mp k stk mem out) = .next s1 ∧
     exec1 G.code G.lim s1 = .intr (.throw msg sp)
       (mkSI G.s (frames' ++ ⟨fn, ip'⟩ :: rest) mp' (k + k' + 1) (xs ++ stk) mem' out')
+  inv : HeapInv out.heap → HeapInv out'.heap
+
+instance {G fn rest mp ip stk mem out msg sp mem' out'} :
+    CoeFun (RunsT G fn rest mp ip stk mem out msg sp mem' out')
+      (fun _ => ∀ k, ∃ k' s1 frames' ip' mp' xs,
+        execHN G.code G.lim k' (mkSI G.s (⟨fn, ip⟩ :: rest) mp k stk mem out) = .next s1 ∧
+        exec1 G.code G.lim s1 = .intr (.throw msg sp)
+          (mkSI G.s (frames' ++ ⟨fn, ip'⟩ :: rest) mp' (k + k' + 1) (xs ++ stk) mem' out')) := ⟨RunsT.run⟩
 
 /-- Expressions: a value ↦ only the output of the specification state changed, the VM runs to
 the end of the code with the value pushed, having produced the same output, and memory cells up
@@ -325,10 +339,16 @@ def SimGS {α : Type} (G : GCtx) (A : Act) (loops : List (String × String)) (ls
 
 /-- A call: from the callee's first instruction, arguments on the stack (first argument on
 top), to the caller's frames with the result pushed. -/
-def RunsCall (G : GCtx) (g : String) (frames : List Frame) (mp : Int) (stk : List SVal) (mem : Mem)
-    (out : World) (stk' : List SVal) (mem' : Mem) (out' : World) : Prop :=
-  ∀ k, ∃ k', execHN G.code G.lim k' (mkSI G.s (⟨g, 0⟩ :: frames) mp k stk mem out) =
+structure RunsCall (G : GCtx) (g : String) (frames : List Frame) (mp : Int) (stk : List SVal) (mem : Mem)
+    (out : World) (stk' : List SVal) (mem' : Mem) (out' : World) : Prop where
+  run : ∀ k, ∃ k', execHN G.code G.lim k' (mkSI G.s (⟨g, 0⟩ :: frames) mp k stk mem out) =
     .next (mkSI G.s frames mp (k + k') stk' mem' out')
+  inv : HeapInv out.heap → HeapInv out'.heap
+
+instance {G g frames mp stk mem out stk' mem' out'} :
+    CoeFun (RunsCall G g frames mp stk mem out stk' mem' out')
+      (fun _ => ∀ k, ∃ k', execHN G.code G.lim k' (mkSI G.s (⟨g, 0⟩ :: frames) mp k stk mem out) =
+        .next (mkSI G.s frames mp (k + k') stk' mem' out')) := ⟨RunsCall.run⟩
 
 def RunsCallF (G : GCtx) (g : String) (frames : List Frame) (mp : Int) (stk : List SVal) (mem : Mem)
     (out : World) (kd msg : String) (sp : Span) (out' : World) : Prop :=
@@ -337,13 +357,21 @@ def RunsCallF (G : GCtx) (g : String) (frames : List Frame) (mp : Int) (stk : Li
     s'.st = { G.s.st with heap := out'.heap, out := out'.out } ∧ s'.globals = G.s.globals
 
 /-- A call that ends in an exception nobody inside the callee catches. -/
-def RunsCallT (G : GCtx) (g : String) (frames : List Frame) (mp : Int) (stk0 stk : List SVal)
+structure RunsCallT (G : GCtx) (g : String) (frames : List Frame) (mp : Int) (stk0 stk : List SVal)
     (mem : Mem) (out : World) (msg : String) (sp : Span) (mem' : Mem) (out' : World) :
-    Prop :=
-  ∀ k, ∃ k' s1 frames' mp' xs,
+    Prop where
+  run : ∀ k, ∃ k' s1 frames' mp' xs,
     execHN G.code G.lim k' (mkSI G.s (⟨g, 0⟩ :: frames) mp k stk0 mem out) = .next s1 ∧
     exec1 G.code G.lim s1 = .intr (.throw msg sp)
       (mkSI G.s (frames' ++ frames) mp' (k + k' + 1) (xs ++ stk) mem' out')
+  inv : HeapInv out.heap → HeapInv out'.heap
+
+instance {G g frames mp stk0 stk mem out msg sp mem' out'} :
+    CoeFun (RunsCallT G g frames mp stk0 stk mem out msg sp mem' out')
+      (fun _ => ∀ k, ∃ k' s1 frames' mp' xs,
+        execHN G.code G.lim k' (mkSI G.s (⟨g, 0⟩ :: frames) mp k stk0 mem out) = .next s1 ∧
+        exec1 G.code G.lim s1 = .intr (.throw msg sp)
+          (mkSI G.s (frames' ++ frames) mp' (k + k' + 1) (xs ++ stk) mem' out')) := ⟨RunsCallT.run⟩
 
 def SimCall (G : GCtx) (g : String) (frames : List Frame) (mp : Int) (args : List Val) (stk : List SVal)
     (mem : Mem) (st : St) (r : Except Ctl Val × St) : Prop :=
@@ -369,7 +397,7 @@ theorem Runs.throw {G : GCtx} {fn : String} {rest : List Frame} {mp : Int} {ip s
     (h1 : Runs G.fr G.code G.lim G.s fn rest mp ip stk mem out ip1 (ys ++ stk) mem1 out1)
     (h2 : RunsT G fn rest mp ip1 (ys ++ stk) mem1 out1 msg sp mem2 out2) :
     RunsT G fn rest mp ip stk mem out msg sp mem2 out2 := by
-  intro k
+  refine ⟨fun k => ?_, fun hi => h2.inv (h1.inv hi)⟩
   obtain ⟨k1, e1⟩ := h1 k
   obtain ⟨k2, s1, frames', ip', mp', xs, e2, e3⟩ := h2 (k + k1)
   refine ⟨k1 + k2, s1, frames', ip', mp', xs ++ ys, ?_, ?_⟩
